@@ -38,7 +38,7 @@ Printed line format (`FixedStruct::as_bytes`), reproduced by `Layout.fmt`
   ` ut_addr_v6 X:X:X:X` (upper hex of the 4 little-endian 32-bit words).  Quirks that are
   reproduced, not corrected: FreeBSD ut_line has no opening quote; numeric ut_session is
   quoted; NetBSD-32 ll_ss is unquoted and runs to the end of the line; FreeBSD ut_type is
-  named by the glibc table.  char (i8) bytes >= 0x80 are printed as a NUL byte.  On stdout
+  named by the glibc table.  char bytes >= 0x80 are printed as they are.  On stdout
   every record is followed by b"\\n\\0" (the terminating NUL is written too): use split_printed.
 
 Fields compared (`parse_printed_line` == `expected_fields`)
@@ -371,8 +371,8 @@ def _f32(x):
 
 def _cstr(raw, kind):
     raw = bytes(raw).split(b"\0", 1)[0]
-    if kind == "str":  # c_char >= 0x80 is negative -> s4 writes a 0 byte in its place
-        raw = bytes(0 if b >= 0x80 else b for b in raw)
+    # (a string field's bytes are printed as they are, also those >= 0x80: the record's own value. An earlier version of
+    # this table restated s4's former habit of printing them as NUL bytes.)
     return raw
 
 
